@@ -1,4 +1,4 @@
-From Tetl Require Import Lib.Base C06a.Instances C01.Model C01.Spec C05.Model C05.Spec C05.ModelMore C05.SpecMore C05.ModelString.
+From Tetl Require Import Lib.Base C06a.Instances C01.Model C01.Spec C05.Model C05.Spec C05.ModelMore C05.SpecMore C05.ModelString C05.ModelMode C05.SpecMode.
 Require Extraction.
 Require Import ExtrOcamlBasic.
 Extraction Language OCaml.
@@ -15,5 +15,8 @@ Extraction "C05_model.ml" wire_anchor
   pre_opt_arrow pre_exp_arrow
   str_iter_range_guard str_iter_range_site pre_iter_range fmt_dfa
   static_set_ctor_site copy_ptrs_site linalg_add_site linalg_mvp_site bitset_str_site span_subspan_site
-  str_step str_pre_ok str_pre_doc str_make str_ctor_fill str_make_w str_ctor_fill_w str_make_16 str_ctor_fill_16 str_size str_index str_front str_back
-  str_replace str_replace_ptr str_replace_cstr str_replace5.
+  str_step str_pre_ok str_pre_doc str_pre_std str_make str_ctor_fill str_make_w str_ctor_fill_w str_make_16 str_ctor_fill_16 str_size str_index str_front str_back
+  str_replace str_replace_ptr str_replace_cstr str_replace5
+  contract_macros precondition_active precondition_safe_active mode_precondition mode_precondition_safe mode_array_index mode_day_ctor
+  doc_precondition_active doc_precondition_safe_active doc_checked
+  vec_insert_range vec_assign_range str_append_range pre_vec_insert_range pre_vec_assign_range pre_str_append_range.
